@@ -6,6 +6,13 @@ command) plus the observations taken by the oracle (notes of every commit on the
 HEAD, blame of every clean file). `translate` turns the steps into a script for the Lean driver op
 `disc_run`; it stops at the first step outside the modelled alphabet (merge, rebase, cherry-pick, revert,
 mv, rm, a stash pop / apply that stops at a conflict): the prefix before it is still compared.
+
+Whitespace: the model's ids identify a line modulo whitespace, git's diff does not. For a commit, an amend and a
+`reset --soft|--mixed HEAD~1` the runner records (`ws`, Walk.ws_lines) the lines git sees as added although the older
+content holds them in another whitespace form; they are passed as `re` and the driver runs the whitespace-sensitive
+reading of that step (Model/Discard.lean commitStepWs / amendStepWs / resetStepWs; without such a line: the alphabet's
+step). The same two steps take `ov`: the lines the working log attributes to the person explicitly (Walk.override_lines),
+which blame does not fill. Blame of a file with a re-indented line is not compared (git moves the line to the re-indenting commit).
 """
 import json
 
@@ -93,6 +100,10 @@ def translate(steps):
         sel = lambda spec: [p for p in files if matches(p, spec)]
         if cmd in BRANCHY_OUTSIDE:
             outside = cmd; break
+        # lines git sees as added although the older content holds them in another whitespace form (Walk.ws_lines)
+        re_ = {p: ids.lines(ls) for p, ls in (st.get("ws") or {}).items() if p in base}
+        # lines the working log attributes to the PERSON explicitly (override of an agent's lines): no gap for blame to fill
+        ov_ = {p: ids.lines(ls) for p, ls in (st.get("ov") or {}).items() if p in base}
         if cmd == "add":
             if a[1:] == ["-A"]:
                 em = [{"k": "addAll"}]
@@ -105,9 +116,11 @@ def translate(steps):
             elif "--amend" in a:
                 if st["depth0"] <= 1:
                     outside = "amend of the root commit"; break
-                em = [{"k": "amend"}]
+                em = [{"k": "amend", "re": re_}] if re_ else [{"k": "amend"}]
+                if ov_:
+                    em[0]["ov"] = ov_
             else:
-                em = [{"k": "commit"}]
+                em = [{"k": "commit", "re": re_}] if re_ else [{"k": "commit"}]
         elif cmd == "reset":
             mode = [x for x in a[1:] if x.startswith("--")]
             rev = [x for x in a[1:] if not x.startswith("--")]
@@ -122,6 +135,10 @@ def translate(steps):
                 em = [{"k": "unstageAll"}]
             elif n == 1 and mode in (["--soft"], ["--mixed"]):
                 em = [{"k": "reset", "n": 1, "soft": mode == ["--soft"]}]
+                if re_:
+                    em[0]["re"] = re_
+                if ov_:
+                    em[0]["ov"] = ov_
             else:
                 outside = "reset " + " ".join(a[1:]); break
         elif cmd == "checkout":
